@@ -1,3 +1,6 @@
+//go:build !verif
+// +build !verif
+
 package quic
 
 import (
